@@ -293,3 +293,66 @@ From SID Require GenEqConst.
 Theorem C18_generated_crs_codes : Generated.GeoCrs = 4326%Z /\ Generated.OrthCrs = 3857%Z.
 Proof. split; [exact GenEqConst.gen_GeoCrs_eq | exact GenEqConst.gen_OrthCrs_eq]. Qed.
 Print Assumptions C18_generated_crs_codes.
+
+(* ---- the backward direction restated over the float kernels REGENERATED from the Go source (coq/generated/GeneratedF.v):
+   GeneratedF.Point_SetLon / Point_SetLat are object.Point's setters as translated from common/object/coordinate.go on every run;
+   `to_geographic_gen` is ConvertProjectedPointListToPointList written over them (object.NewPoint = SetLon, SetLat, SetAlt on a zero Point,
+   stopping at the first error - this sequence is hand-written, NewPoint is not translated) and over the generated constant Generated.GeoCrs.
+   `setters_accept x y lat'` = both generated setters accept and store (x, lat'); `setters_refuse x y` = one of them returns an error. ---- *)
+From SIDGen Require GeneratedF.
+From SID Require GenC18.
+
+(* without error, on the generated code: output i is what the generated setters store for the transform of input i - longitude as returned,
+   latitude as cut by the generated SetLat - with input i's own altitude: same length, same order, altitude bit for bit *)
+Theorem C18_backward_over_generated_setters : forall known tr l crs,
+  snd (GenC18.to_geographic_gen known tr l crs) = None ->
+  Forall2 (fun q g => exists x y z lat', tr crs Generated.GeoCrs (px q) (py q) (pz q) = Some (x, y, z) /\
+                                         GenC18.setters_accept x y lat' /\ g = {| plon := x; plat := lat'; palt := pz q |})
+          l (fst (GenC18.to_geographic_gen known tr l crs)).
+Proof. exact GenC18.backward_over_generated. Qed.
+Print Assumptions C18_backward_over_generated_setters.
+
+(* a ValueConvertError exactly when the code is unknown, the transform refuses a point, or a generated setter refuses the transformed
+   coordinates of a point; and no other error code *)
+Theorem C18_backward_error_iff_over_generated_setters : forall known tr l crs,
+  snd (GenC18.to_geographic_gen known tr l crs) = Some EValueConvert <->
+  known crs = false \/
+  Exists (fun q => tr crs Generated.GeoCrs (px q) (py q) (pz q) = None \/
+                   exists x y z, tr crs Generated.GeoCrs (px q) (py q) (pz q) = Some (x, y, z) /\ GenC18.setters_refuse x y) l.
+Proof. exact GenC18.backward_error_iff_over_generated. Qed.
+Print Assumptions C18_backward_error_iff_over_generated_setters.
+Theorem C18_backward_error_kind_over_generated_setters : forall known tr l crs,
+  snd (GenC18.to_geographic_gen known tr l crs) = None \/ snd (GenC18.to_geographic_gen known tr l crs) = Some EValueConvert.
+Proof. exact GenC18.backward_kind_over_generated. Qed.
+Print Assumptions C18_backward_error_kind_over_generated_setters.
+
+(* there and back through the generated constants (source CRS Generated.GeoCrs, planar CRS Generated.OrthCrs), no error: same length and
+   order; every point comes back as what the generated setters store for the transformed coordinates, with its own altitude.
+   Partial like C18_round_trip_structure_partial: numeric closeness is validated at run time, not proved *)
+Theorem C18_round_trip_over_generated_partial : forall known tr l,
+  let f := to_projected known tr l Generated.OrthCrs in
+  snd f = None -> snd (GenC18.to_geographic_gen known tr (fst f) Generated.OrthCrs) = None ->
+  Forall2 (fun p g => exists q x y z lat',
+             (exists z', tr Generated.GeoCrs Generated.OrthCrs (plon p) (plat p) (palt p) = Some (px q, py q, z')) /\ pz q = palt p /\
+             tr Generated.OrthCrs Generated.GeoCrs (px q) (py q) (pz q) = Some (x, y, z) /\
+             GenC18.setters_accept x y lat' /\ g = {| plon := x; plat := lat'; palt := palt p |})
+          l (fst (GenC18.to_geographic_gen known tr (fst f) Generated.OrthCrs)).
+Proof. exact GenC18.round_trip_over_generated. Qed.
+Print Assumptions C18_round_trip_over_generated_partial.
+
+(* the function written over the generated setters is the wrapper model the run compares with the code *)
+Theorem C18_generated_backward_is_the_model : forall known tr l crs,
+  GenC18.to_geographic_gen known tr l crs = to_geographic known tr l crs.
+Proof. exact GenC18.to_geographic_gen_eq. Qed.
+Print Assumptions C18_generated_backward_is_the_model.
+
+Example C18_generated_setters_nonvacuous :
+  GenC18.setters_accept 139 35 35 /\ GenC18.setters_refuse 139 86 /\ GenC18.setters_refuse 181 0.
+Proof. exact GenC18.setters_accept_nonvacuous. Qed.
+Print Assumptions C18_generated_setters_nonvacuous.
+Example C18_backward_over_generated_nonvacuous :
+  let tr := fun (_ _ : Z) (a b c : float) => Some (a, b, 0%float) in
+  GenC18.to_geographic_gen epsg_known tr [ {| px := 10; py := 20; pz := 0x1.b2fffffffffffp+8 |}; {| px := 10; py := 86; pz := 7 |} ] Generated.OrthCrs
+  = ([ {| plon := 10; plat := 20; palt := 0x1.b2fffffffffffp+8 |} ], Some EValueConvert).
+Proof. exact GenC18.backward_over_generated_nonvacuous. Qed.
+Print Assumptions C18_backward_over_generated_nonvacuous.
